@@ -68,7 +68,7 @@ CHECKS["C05"] = {
 
 CHECKS["C09"] = {
     "level": "exploration",
-    "technique": "property-based testing (rapid): generated peer addresses (IPv4/IPv6/IPv4-mapped), Host values, client-supplied X-Forwarded-*/Forwarded lines in drawn case, both protocols and no ALPN, PreserveHost on/off; oracle on the forwarding headers recorded by the backend; plus concurrent clients with per-request X-Forwarded-For lists (free-running goroutines, schedule-dependent) and the binary's default wiring (overlay)",
+    "technique": "property-based testing (rapid): generated peer addresses (IPv4/IPv6/IPv4-mapped), Host values, client-supplied X-Forwarded-*/Forwarded lines in drawn case, both protocols and no ALPN, PreserveHost on/off; oracle on the forwarding headers recorded by the backend; plus concurrent clients with per-request X-Forwarded-For lists (free-running goroutines, schedule-dependent) and the binary's default wiring (overlay); client X-Forwarded-For chains of up to 300 hops",
     "rule": "case = connection (protocol, peer address, PreserveHost) + 1..3 requests with 0..5 client-supplied forwarding field lines. Non-trivial = the client sent at least one forwarding header or the connection is not HTTP/2; distinct by hash of the script.",
     "level_text": "Generated-input search with an exact oracle (last X-Forwarded-For element = peer IP after the client's list in order, X-Forwarded-Host = Host addressed, X-Forwarded-Proto = https exactly once, no Forwarded, Host per PreserveHost).",
     "level_note": _E2E_NOTE,
@@ -80,7 +80,7 @@ CHECKS["C09"] = {
 
 CHECKS["C15"] = {
     "level": "exploration",
-    "technique": "property-based testing (rapid): User-Agent values drawn from a grammar around the literal kube-probe/ (absent, empty, prefix, infix, suffix, case variants, two field lines, literal in other headers or the path) x methods x protocols x probe support on/off; oracle on the client-visible response and the backend request log",
+    "technique": "property-based testing (rapid): User-Agent values drawn from a grammar around the literal kube-probe/ (absent, empty, prefix, infix, suffix, case variants, two field lines, literal in other headers or the path) x methods x protocols x probe support on/off; oracle on the client-visible response and the backend request log; requests with bodies (declared, chunked, undeclared length) and a field name repeated around the User-Agent",
     "rule": "case = connection (protocol, probe support) + 1..4 requests. Non-trivial = a User-Agent contains kube-probe without being a plain probe prefix, or probe support is off while the UA is a probe UA; distinct by hash of the script.",
     "level_text": "Generated-input search with an exact oracle: answered locally (200, OK, backend log unchanged) iff probe support is on and the first User-Agent value begins with kube-probe/; otherwise forwarded exactly once and the backend's answer reaches the client; never both, never neither.",
     "level_note": _E2E_NOTE,
@@ -104,7 +104,7 @@ CHECKS["C03"] = {
 
 CHECKS["C16"] = {
     "level": "exploration",
-    "technique": "property-based testing (rapid, barrier mode under testing/synctest): generated multisets of 1..14 connections with every outcome (h2 / http/1.1 / no-ALPN served, plain HTTP on the TLS port, garbage, silent until handshake timeout, client abort or stall at a drawn byte offset of a valid session) started and finished in a drawn interleaving; requests_total gathered after every step at quiescence and compared with a model; plus the registry wiring of the binary (overlay) and a wedge watch that reports a connection whose goroutine waits for ever on a fingerproxy mutex",
+    "technique": "property-based testing (rapid, barrier mode under testing/synctest): generated multisets of 1..14 connections with every outcome (h2 / http/1.1 / no-ALPN served, plain HTTP on the TLS port, garbage, silent until handshake timeout, client abort or stall at a drawn byte offset of a valid session) started and finished in a drawn interleaving; requests_total gathered after every step at quiescence and compared with a model; plus the registry wiring of the binary (overlay) and a wedge watch that reports a connection whose goroutine waits for ever on a fingerproxy mutex; in a quarter of the cases the server's context is cancelled with drawn connections still open and the counts are judged after the shutdown and after the clients left",
     "rule": "case = connection plans + step order (start i / finish i / sleep past the handshake timeout). Non-trivial = at least three distinct outcomes including one failed (ok=0) connection and one client abort; distinct by hash of the script.",
     "level_text": "Generated histories with an exact model: after every step the metric equals, per label set, the number of connections the proxy has ended so far (labels as the client observed them), never decreases, and at the end sums to the number of accepted connections.",
     "level_note": _E2E_NOTE + " 'Ended' is taken as 'the proxy closed its side of the connection' (see DESIGN §6); whether it closes in the right situations is C11's subject.",
@@ -151,7 +151,7 @@ CHECKS["C10"] = {
 
 CHECKS["C20"] = {
     "level": "exploration",
-    "technique": "model-based property testing (rapid) in package http2 via go test -overlay: generated open/close/adjust/push/pop/window/max-frame histories for the round-robin, random and priority schedulers (priority: MaxClosed/MaxIdle in {0,1,2,10}, throttle on/off) against a list-based reference scheduler; structural invariant of the priority tree after every operation; final drain with open windows; plus long runs (millions of frames) against counter overflow",
+    "technique": "model-based property testing (rapid) in package http2 via go test -overlay: generated open/close/adjust/push/pop/window/max-frame histories for the round-robin, random and priority schedulers (priority: MaxClosed/MaxIdle in {0,1,2,10}, throttle on/off) against a list-based reference scheduler; structural invariant of the priority tree after every operation; final drain with open windows; plus long runs (millions of frames) against counter overflow; dependency chains of 20..257 levels with a stream re-parented under its own far descendant",
     "rule": "case = scheduler configuration + 1..60 operations permitted by the WriteScheduler interface. Non-trivial = the history closes a stream that still has frames queued, drives a stream or connection window to <= 0 and (priority scheduler) contains an exclusive or self-dependent adjust; distinct by hash of the operation list.",
     "level_text": "Generated histories against a reference: every queued frame is popped exactly once unless its stream was closed, per-stream order, control frames first, DATA pieces within stream window / connection window / max frame size and debited exactly, Pop()==false only when nothing is sendable, and the priority tree stays a tree rooted at stream 0 with consistent links, byte sums and retention caps.",
     "level_note": "Trusted: the reference model in overlay/http2/sched_test.go (per-stream FIFO lists, control list, window integers). Only calls the interface permits are generated (no double open, no HEADERS/DATA on a stream that is not open, client streams opened in increasing id order).",
@@ -208,7 +208,7 @@ CHECKS["C06"] = {
 
 CHECKS["C07"] = {
     "level": "exploration",
-    "technique": "race-detector build (-race) of a rapid property under testing/synctest: one HTTP/2 connection, bursts of up to 30 streams opened back-to-back while distinguishable SETTINGS / WINDOW_UPDATE / PRIORITY frames keep arriving; handlers free-run through the real reverse proxy with no harness synchronisation between handler and frame writer; oracles: (1) any data race report whose stacks touch the captured metadata, (2) every recorded fingerprint equals the reference fingerprint of some frame-history prefix between the request's own HEADERS and the moment the client saw its response",
+    "technique": "race-detector build (-race) of a rapid property under testing/synctest: one HTTP/2 connection, bursts of up to 30 streams opened back-to-back while distinguishable SETTINGS / WINDOW_UPDATE / PRIORITY frames keep arriving; handlers free-run through the real reverse proxy with no harness synchronisation between handler and frame writer; oracles: (1) any data race report whose stacks touch the captured metadata, (2) every recorded fingerprint equals the reference fingerprint of some frame-history prefix between the request's own HEADERS and the moment the client saw its response; bursts whose requests the client cancels right behind their HEADERS (no open stream left while handlers still compute fingerprints), followed by fingerprint frames",
     "rule": "case = operation list (settings, priority, window_update, burst of n streams with/without priority, wait). Non-trivial = at least two streams and at least one fingerprint-relevant frame written while streams are in flight; distinct by hash of the script.",
     "level_text": "Sampled interleavings amplified by the race detector (it flags the unsynchronised pair whenever both accesses happen in one execution, not only when they collide) plus a value oracle against torn mixtures. Evidence, not proof: the harness does not own instruction-level interleavings.",
     "level_note": _E2E_NOTE + " Data races that do not involve pkg/metadata (e.g. upstream x/net's hpack encoder being resized by the serve loop while the frame writer uses it) are listed in the evidence as observations and are not this property's violations.",
